@@ -246,6 +246,14 @@ def run_c03(tier, seed, replay=None):
                            lambda x: ["ilist", 1, x], lambda x: ["comp", "Named", x, ["comp", "Wrap", x]]])
         body = [["fresh", ["x", "y"], ["eq", "q", wrap("x")], ["neq", "x", k], rnd.choice([["neq", "q", "y"], ["neq", "y", k], ["neq", ["list", "x", "y"], ["list", 1, 2]]])]]
         cases.append(mk_case([], ["q"], body))
+    for _ in range(n // 4):
+        k = rnd.randint(1, 3)
+        other = rnd.choice([["comp", "Pair", "r", "y"], ["comp", "Pair", "y", k], ["list", 0, ["comp", "Pair", "x", "y"]],
+                            ["comp", "Named", ["comp", "Wrap", "y"], "q"], ["comp", "Tri", "r", k, "y"], ["list", "r", "y"],
+                            ["comp", "Pair", "r", ["list", "y"]], ["comp", "Wrap", "r"], ["comp", "Pair", "r", "r"]])
+        body = [["fresh", ["x", "y"], ["neq", rnd.choice(["q", "r", ["list", "q", "r"]]), other]] +
+                ([["eq", "x", "r"]] if rnd.random() < 0.5 else [])]
+        cases.append(mk_case([], ["q", "r"], body))
     return pcheck.run_check("C03", tier, seed, cases, "exact", oracle_c03, cone=["Proofs/ReifyProofs.vo", "Proofs/EngineProofs.vo"], replay=replay,
         rule="programs of ==, !=, fresh, conde over lists and four compound types with 1-3 query variables sharing free variables, plus "
              "constraints on hidden variables and on variables nested in compounds/lists; every answer is checked: only reified variables in "
@@ -315,6 +323,17 @@ def run_c04(tier, seed, replay=None):
         for pm in perms:
             cases.append(mk_case([], q, [permute_goal(rnd, x) if pm != perms[0] else x for x in pm], perm_group=grp))
         grp += 1
+    # a disequality whose pairs share a variable, its keys bound one at a time, in every order
+    for _ in range(n // 3):
+        a, b = rnd.sample([1, 2, 3], 2)
+        first = rnd.choice([["neq", ["list", "q", "r"], ["list", "t", "t"]], ["neq", ["list", "q", "r", "t"], ["list", "t", a, "q"]],
+                            ["neq", ["cons", "q", "r"], ["cons", "t", "t"]]])
+        pool = [first, ["eq", "q", a], ["eq", "r", rnd.choice([a, b])], ["cond", ["eq", "t", a], ["eq", "t", b]]]
+        perms = list(itertools.permutations(pool))
+        perms = [perms[0]] + rnd.sample(perms[1:], 7)
+        for pm in perms:
+            cases.append(mk_case([], ["q", "r", "t"], list(pm), perm_group=grp))
+        grp += 1
     # finite-domain programs: every posting order
     for _ in range(n // 2):
         lo, hi = rnd.randint(-2, 0), rnd.randint(1, 3)
@@ -378,6 +397,14 @@ def run_c12(tier, seed, replay=None):
                              explicit_of=k + 1, empty_coll=(not elems and not pre)))
         expl = [subst_goal(b, "e", el) for el in elems for b in body]
         cases.append(mk_case([], q, pre + (expl if expl else ["true"])))
+    for _ in range(n // 3):
+        el = rnd.choice([1, "q", ["list", "q", 1], "r"])
+        elems = [el] * rnd.randint(2, 3) + ([2] if rnd.random() < 0.5 else [])
+        rnd.shuffle(elems)
+        body = [["fresh", ["y"], ["lib", "member", "y", ["list", 7, 8]], rnd.choice([["neq", "y", "e"], "true", ["eq", "r", ["list", "y"]], ["neq", "r", "y"]])]]
+        k = len(cases)
+        cases.append(mk_case([], ["q", "r"], [["for", "e", ["list"] + elems] + body], explicit_of=k + 1))
+        cases.append(mk_case([], ["q", "r"], [subst_goal(b, "e", x) for x in elems for b in body]))
     return pcheck.run_check("C12", tier, seed, cases, "exact", oracle_c12, cone=CONE_D, replay=replay,
         rule="for e in [t1..tn] { body } (n = 0..4; ground, partial and shared-variable elements; bodies of ==, !=, conde, fresh, member over e "
              "and the query variables) against the explicit conjunction of the instantiated bodies, as answer multisets (ground-instance sets "
@@ -401,7 +428,16 @@ def oracle_c22(cases, impl, model):
                     if w - t != s:
                         fails.append({"case_index": k, "what": "at probe %s: with_constraint calls %d - take_constraint calls %d != %d constraints in the store" % (pr[1], w, t, s)})
                         break
-        if not i.error and not m.error and sorted(i.probes) != sorted(m.probes) and i.end == "done" and m.end == "done":
+        def norm(res):
+            # absolute hook counts depend on the order in which the store is re-run (hash order in Rust):
+            # compare the balance, the store size, the number of extensions and the last extension
+            out = []
+            for lin in P.parse_all(res.raw):
+                if lin[0] == "probes":
+                    for lineage in lin[1:]:
+                        out.append(P.sx([[pr[1], int(pr[2]) - int(pr[3]), pr[4], pr[5], pr[6]] for pr in lineage[1:]]))
+            return sorted(out)
+        if not i.error and not m.error and i.end == "done" and m.end == "done" and norm(i) != norm(m):
             # same lineages expected (every lineage that reaches the end probe is an answer for non-FD programs)
             if not c.get("fd"):
                 fails.append({"case_index": k, "what": "hook counts / extensions along a lineage differ from the model",
@@ -427,6 +463,12 @@ def run_c22(tier, seed, replay=None):
         goals = [["neq", "q", a], ["probe", "a"], ["neq", ["list", "q", "r"], ["list", a, b]], ["probe", "b"],
                  ["neq", ["list", "q", "r"], ["list", a, b]], ["probe", "c"], ["neq", ["list", "q", "r", 1], ["list", a, b, 1]], ["probe", "d"],
                  rnd.choice([["eq", "r", b], ["eq", "q", a + 1], "true"]), ["probe", "end"]]
+        cases.append(mk_case([], ["q", "r"], goals))
+    for _ in range(n // 4):
+        a, b = rnd.randint(1, 3), rnd.randint(1, 3)
+        goals = [["neq", ["list", "q", "r"], ["list", a, b]], ["probe", "a"], ["neq", ["list", "q", "r", 1], ["list", a, b, 1]], ["probe", "b"],
+                 rnd.choice([["neq", "q", a], ["neq", "r", b], ["fresh", ["z"], ["neq", ["list", "q", "z"], ["list", a, 5]], ["eq", "z", 5]]]), ["probe", "c"],
+                 rnd.choice([["neq", "r", b], ["eq", "r", b + 1], "true"]), ["probe", "end"]]
         cases.append(mk_case([], ["q", "r"], goals))
     for _ in range(n // 4):
         lo, hi = rnd.randint(-1, 1), rnd.randint(2, 4)
